@@ -497,15 +497,15 @@ theorem typeF_fuel : ∀ n m s, s.length < n → s.length < m → typeF n s = ty
         cases h : lit l s with
         | none => rfl
         | some r => simp only [Option.bind_some]; exact ht r (lit_shrinks hl h)
-      have e2 : (lit "?".toList s).bind (btypeF n (typeF n)) = (lit "?".toList s).bind (btypeF m (typeF m)) := by
-        cases h : lit "?".toList s with
+      have e2 : (lit ['?'] s).bind (btypeF n (typeF n)) = (lit ['?'] s).bind (btypeF m (typeF m)) := by
+        cases h : lit ['?'] s with
         | none => rfl
         | some r =>
           simp only [Option.bind_some]
           exact hb r (Nat.le_of_lt (lit_shrinks (by decide) h))
-      have e3 : ∀ l : Str, ((lit "?".toList s).bind (lit l)).bind (typeF n) = ((lit "?".toList s).bind (lit l)).bind (typeF m) := by
+      have e3 : ∀ l : Str, ((lit ['?'] s).bind (lit l)).bind (typeF n) = ((lit ['?'] s).bind (lit l)).bind (typeF m) := by
         intro l
-        cases h : lit "?".toList s with
+        cases h : lit ['?'] s with
         | none => rfl
         | some r =>
           simp only [Option.bind_some]
@@ -573,7 +573,7 @@ theorem memberHeadF_shrinks (n : Nat) (kw : Str) {s a r} (h : memberHeadF n kw s
 theorem vtypedefF_fuel (n m s) (hn : s.length ≤ n) (hm : s.length ≤ m) : vtypedefF n s = vtypedefF m s := by
   simp only [vtypedefF]
   rw [memberHeadF_fuel n m _ s hn hm]
-  cases h : memberHeadF m "type".toList s with
+  cases h : memberHeadF m ['t', 'y', 'p', 'e'] s with
   | none => rfl
   | some x =>
     obtain ⟨a, s1⟩ := x
@@ -584,7 +584,7 @@ theorem vtypedefF_fuel (n m s) (hn : s.length ≤ n) (hm : s.length ≤ m) : vty
 theorem errorF_fuel (n m s) (hn : s.length ≤ n) (hm : s.length ≤ m) : errorF n s = errorF m s := by
   simp only [errorF]
   rw [memberHeadF_fuel n m _ s hn hm]
-  cases h : memberHeadF m "error".toList s with
+  cases h : memberHeadF m ['e', 'r', 'r', 'o', 'r'] s with
   | none => rfl
   | some x =>
     obtain ⟨a, s1⟩ := x
@@ -595,7 +595,7 @@ theorem errorF_fuel (n m s) (hn : s.length ≤ n) (hm : s.length ≤ m) : errorF
 theorem methodF_fuel (n m s) (hn : s.length ≤ n) (hm : s.length ≤ m) : methodF n s = methodF m s := by
   simp only [methodF]
   rw [memberHeadF_fuel n m _ s hn hm]
-  cases h : memberHeadF m "method".toList s with
+  cases h : memberHeadF m ['m', 'e', 't', 'h', 'o', 'd'] s with
   | none => rfl
   | some x =>
     obtain ⟨a, s1⟩ := x
@@ -610,7 +610,7 @@ theorem methodF_fuel (n m s) (hn : s.length ≤ n) (hm : s.length ≤ m) : metho
       simp only [Option.bind_some]
       have l2 := wceStarF_le m s2
       rw [wceStarF_fuel n m s2 (by omega) (by omega)]
-      cases h3 : lit "->".toList (wceStarF m s2).2 with
+      cases h3 : lit ['-', '>'] (wceStarF m s2).2 with
       | none => rfl
       | some s3 =>
         have l3 : s3.length ≤ (wceStarF m s2).2.length := lit_le h3
